@@ -570,6 +570,10 @@ class InstanceWriteProvider(BaseProvider):
         ref_namespaces = set()
         for inst_prop in cim_object.properties.values():
             if inst_prop.type == 'reference':
+                # A reference property with value None (NULL association
+                # end) does not name any namespace.
+                if inst_prop.value is None:
+                    continue
                 refprop_namespace = inst_prop.value.namespace
                 assert refprop_namespace is not None, \
                     _format("Invalid namespace value None found in reference "
